@@ -306,6 +306,29 @@ func buildK(name string, variant byte) *kContract {
 	}
 	m.ABI.Events = []manifest.Event{{Name: "E", Parameters: []manifest.Parameter{manifest.NewParameter("x", smartcontract.AnyType)}}}
 	m.Permissions = []manifest.Permission{*manifest.NewPermission(manifest.PermissionWildcard)}
+	// manifests differ in how they express their permissions (what is stored, and what a restarted node parses back)
+	switch (int(variant) + int(name[len(name)-1])) % 3 {
+	case 1:
+		// nothing of the GAS contract may be called (explicitly empty method list), anything else by method name
+		noGas := manifest.NewPermission(manifest.PermissionHash, nativehashes.GasToken)
+		noGas.Methods.Value = []string{}
+		byName := manifest.NewPermission(manifest.PermissionWildcard)
+		for _, km := range methods {
+			byName.Methods.Add(km.name)
+		}
+		for _, n := range []string{"balanceOf", "request", "deploy", "vote", "getPrice", "totalSupply"} {
+			byName.Methods.Add(n)
+		}
+		m.Permissions = []manifest.Permission{*noGas, *byName}
+	case 2:
+		// the native token contracts by hash with all methods, everything else by wildcard
+		gas := manifest.NewPermission(manifest.PermissionHash, nativehashes.GasToken)
+		neo := manifest.NewPermission(manifest.PermissionHash, nativehashes.NeoToken)
+		neo.Methods.Add("balanceOf")
+		neo.Methods.Add("transfer")
+		m.Permissions = []manifest.Permission{*gas, *neo, *manifest.NewPermission(manifest.PermissionWildcard)}
+		m.SupportedStandards = []string{"NEP-27"}
+	}
 	ne, err := nef.NewFile(script)
 	if err != nil {
 		panic(err)
